@@ -45,6 +45,17 @@ def r1(ctx):
     ctx.ob("ExactSizeIterator", bool(imp), "MoveGen no longer claims ExactSizeIterator (informational anchor)")
 
 
+@rule("C10.R11", "MoveGen overrides no Iterator method beyond the audited next / size_hint / count, and its Clone is the derived one")
+def r11(ctx):
+    P = ctx.P
+    new = k2.unaudited_overrides(P, [MG])
+    ctx.ob("no unaudited Iterator override", not new, f"MoveGen now overrides {new}: nothing establishes that it agrees with next() / len()", sample={"audited": ["next", "size_hint", "count"]})
+    ck = f"<{MG} as core::clone::Clone>::clone"
+    if ck in P.fns:
+        ctx.ob("Clone derived", bool(P.fns[ck].get("derived")), "MoveGen::clone is hand-written: a copy that drops entries or rewinds the cursor yields a different remaining sequence",
+               site=P.fns[ck].get("def_span"))
+
+
 @rule("C10.R2", "promotion multiplier = number of promotion pieces = 4 distinct variants")
 def r2(ctx):
     P = ctx.P
